@@ -170,6 +170,7 @@ func DecodeBoxSR(startPos uint64, sr bits.SliceReader) (Box, error) {
 	}
 
 	d, ok := decodersSR[h.Name]
+	payloadStart := sr.GetPos()
 
 	if !ok {
 		b, err = DecodeUnknownSR(h, startPos, sr)
@@ -178,6 +179,18 @@ func DecodeBoxSR(startPos uint64, sr bits.SliceReader) (Box, error) {
 	}
 	if err != nil {
 		return nil, fmt.Errorf("decode %s pos %d: %w", h.Name, startPos, err)
+	}
+	// A box decoder must not read beyond the end of its box. Bytes of the box that it did not
+	// read are skipped, so that the next box starts where the size field says (as in DecodeBox).
+	if h.Name != "mdat" {
+		nrRead := sr.GetPos() - payloadStart
+		if nrRead > h.payloadLen() {
+			return nil, fmt.Errorf("decode %s pos %d: %d bytes read, but payload size is %d",
+				h.Name, startPos, nrRead, h.payloadLen())
+		}
+		if nrRead < h.payloadLen() {
+			sr.SkipBytes(h.payloadLen() - nrRead)
+		}
 	}
 
 	return b, nil
